@@ -615,3 +615,17 @@ def loop_search(interp, target, it, body, env, node, label, rule):
 def _vsum(interp, args, kwargs, node):
     from . import vec
     return vec.vec_sum(interp, args[0])
+
+
+@spec("post")
+def _post(interp, args, kwargs, node):
+    """post("qualname", args...) : the value the named function's contract says it returns"""
+    q = concrete_str(args[0])
+    c = interp.registry.get(q)
+    if c is None or c.returns_expr is None:
+        raise Unsupported(f"post({q}): no functional contract")
+    names = [a.arg for a in c.fnode.args.posonlyargs + c.fnode.args.args + c.fnode.args.kwonlyargs]
+    bound = dict(zip(names, args[1:]))
+    bound.update(kwargs)
+    env = c.spec_env(interp, bound)
+    return c.eval_spec(interp, c.returns_expr.expr, env)
